@@ -186,8 +186,15 @@ def run_coq_text(text, name='cases', timeout=1500):
     try:
         with open(os.path.join(tmp, name + '.v'), 'w') as f:
             f.write(text)
-        rc, out, err = sh(['timeout', str(timeout), 'coqc'] + COQ_Q + [name + '.v'], cwd=tmp, timeout=timeout + 60)
-        return rc, out, err
+        # long string literals (whole dot outputs) make coqc's parser recurse deeply: give it a large stack
+        def _big_stack():
+            import resource
+            soft, hard = resource.getrlimit(resource.RLIMIT_STACK)
+            want = 1 << 30
+            resource.setrlimit(resource.RLIMIT_STACK, (want if hard == resource.RLIM_INFINITY or hard >= want else hard, hard))
+        p = subprocess.run(['timeout', str(timeout), 'coqc'] + COQ_Q + [name + '.v'], cwd=tmp, stdout=subprocess.PIPE, stderr=subprocess.PIPE,
+                           text=True, timeout=timeout + 60, preexec_fn=_big_stack)
+        return p.returncode, p.stdout, p.stderr
     finally:
         shutil.rmtree(tmp, ignore_errors=True)
 
